@@ -541,6 +541,9 @@ struct Plan {
     /// weights: setup, sender, receiver, raw reader
     weights: [usize; 4],
     total_bytes: usize,
+    /// The inherited listening descriptor is bound in the Linux abstract namespace (no path in the
+    /// file system), as socket-activated services often are.
+    abstract_inherited: bool,
 }
 
 /// `budget` = (payload bytes left for this run, messages over 60 kB left for this run): the writer
@@ -662,7 +665,8 @@ fn gen_plan(t: &mut Tape, thorough: bool) -> Plan {
         2 => [1, 1, 8, 2], // reader-fast
         _ => [4, 1 + t.draw(6), 1 + t.draw(6), 1],
     };
-    Plan { conns, weights, total_bytes: start_budget - budget.0 }
+    let abstract_inherited = t.draw(3) == 2;
+    Plan { conns, weights, total_bytes: start_budget - budget.0, abstract_inherited }
 }
 
 fn describe_plan(p: &Plan, rt: &str) -> Value {
@@ -1114,6 +1118,7 @@ async fn scenario<B: Backend>(world: &World, plan: &Plan) -> Result<(), (String,
         }
     }
     let mut acts: Vec<Act> = Vec::new();
+    let abstract_name = format!("zs-abstract-{}-{}", std::process::id(), DIR_COUNTER.fetch_add(1, Ordering::Relaxed));
     for (li, ks) in via.iter().enumerate() {
         if ks.is_empty() {
             continue;
@@ -1125,7 +1130,14 @@ async fn scenario<B: Backend>(world: &World, plan: &Plan) -> Result<(), (String,
         } else {
             // a listener somebody else created and left in blocking mode, handed over as a descriptor
             world.borrow_mut().stat("probe.listener_from_inherited_descriptor");
-            let std_l = StdUnixListener::bind(&path).map_err(|e| ("HARNESS/panic".to_string(), format!("bind: {e}")))?;
+            let std_l = if plan.abstract_inherited {
+                use std::os::linux::net::SocketAddrExt;
+                world.borrow_mut().stat("probe.inherited_listener_bound_in_the_abstract_namespace");
+                let addr = std::os::unix::net::SocketAddr::from_abstract_name(abstract_name.as_bytes()).map_err(|e| ("HARNESS/panic".to_string(), format!("abstract address: {e}")))?;
+                StdUnixListener::bind_addr(&addr).map_err(|e| ("HARNESS/panic".to_string(), format!("bind (abstract): {e}")))?
+            } else {
+                StdUnixListener::bind(&path).map_err(|e| ("HARNESS/panic".to_string(), format!("bind: {e}")))?
+            };
             std_l.set_nonblocking(false).unwrap();
             B::from_fd(OwnedFd::from(std_l))
         };
@@ -1154,12 +1166,23 @@ async fn scenario<B: Backend>(world: &World, plan: &Plan) -> Result<(), (String,
             }))),
         });
         let (sh2, world2) = (sh.clone(), world.clone());
+        let (abstract_li, abstract_name2) = (plan.abstract_inherited, abstract_name.clone());
         acts.push(Act {
             class: 0,
             tag: 1010 + li as u64,
             kind: Some(ActKind::Fut(Box::pin(async move {
                 for j in 0..n {
-                    match B::connect(path.clone()).await {
+                    let made = if li == 1 && abstract_li {
+                        // no path to connect to: a plain std connect to the abstract address, then wrapped
+                        use std::os::linux::net::SocketAddrExt;
+                        std::os::unix::net::SocketAddr::from_abstract_name(abstract_name2.as_bytes())
+                            .and_then(|a| StdUnixStream::connect_addr(&a))
+                            .map(|s| Connection::new(B::wrap(s)))
+                            .map_err(zlink_core::Error::Io)
+                    } else {
+                        B::connect(path.clone()).await
+                    };
+                    match made {
                         Ok(c) => {
                             world2.borrow_mut().ev("b.connected", li as u64, j as u64);
                             sh2.connected.borrow_mut()[li].push_back(c);
@@ -1441,7 +1464,7 @@ pub fn run_receive_abandonment_on_real_sockets(world: &World, smol: bool) -> Ver
             1 => [1, 8, 1, 1],
             _ => [1, 1, 8, 2],
         };
-        let plan = Plan { conns, weights, total_bytes: start - budget.0 };
+        let plan = Plan { conns, weights, total_bytes: start - budget.0, abstract_inherited: false };
         w.step_cap = 40_000 + (plan.total_bytes as u64) / 4;
         if w.want_sample {
             w.scenario = Some(describe_plan(&plan, if smol { "smol" } else { "tokio" }));
